@@ -22,6 +22,37 @@ import PsutilModel.Base.Bytes
 import PsutilModel.Base.Dec
 namespace Psutil.C12
 
+/-! ## exceptions, and the `except` clauses of the front end as the translator finds them -/
+
+/-- the exceptions a caller can see -/
+inductive Exc | noSuchProcess | zombieProcess | accessDenied | fileNotFound
+  deriving DecidableEq, Repr
+
+/-- `except (A, B): <body>` clauses of one `try`, in source order: (class names, tag of the body) -/
+abbrev Clauses := List (List String × String)
+
+/-- does `except cls` catch `e`? psutil's hierarchy: ZombieProcess ⊂ NoSuchProcess ⊂ Error ⊂ Exception,
+    AccessDenied ⊂ Error; the bare FileNotFoundError ⊂ OSError ⊂ Exception. An unknown name catches
+    nothing (the translator refuses names it does not know). -/
+def catches (cls : String) : Exc → Bool
+  | .zombieProcess => cls == "ZombieProcess" || cls == "NoSuchProcess" || cls == "Error"
+      || cls == "Exception" || cls == "BaseException"
+  | .noSuchProcess => cls == "NoSuchProcess" || cls == "Error" || cls == "Exception" || cls == "BaseException"
+  | .accessDenied => cls == "AccessDenied" || cls == "Error" || cls == "Exception" || cls == "BaseException"
+  | .fileNotFound => cls == "FileNotFoundError" || cls == "OSError" || cls == "Exception"
+      || cls == "BaseException"
+
+/-- Python tries the clauses in order: the tag of the FIRST clause naming a class of `e` -/
+def dispatch : Clauses → Exc → Option String
+  | [], _ => none
+  | (cls, tag) :: rest, e => if cls.any (catches · e) then some tag else dispatch rest e
+
+def allExc : List Exc := [.noSuchProcess, .zombieProcess, .accessDenied, .fileNotFound]
+
+/-- the exceptions which a clause list handles with a body tagged `tag` -/
+def handledWith (cl : Clauses) (tag : String) : List Exc :=
+  allExc.filter fun e => dispatch cl e == some tag
+
 /-! ## configuration: literals and shape facts re-derived from the source by the translator -/
 
 structure Cfg where
@@ -53,6 +84,15 @@ structure Cfg where
   nameTestOnBytes : Bool
   /-- does `open_text` read without newline translation? -/
   textRaw : Bool
+  /-- `name()`: the errors of `self.cmdline()` whose `except` clause is `pass` (the kernel's name is kept);
+      every other error propagates (no clause, or a clause that re-raises) -/
+  nameSwallows : List Exc
+  /-- `exe()`: the errors of `self._proc.exe()` whose clause is `return guess_it(fallback=err)` -/
+  exeGuessOn : List Exc
+  /-- `exe()`: the errors of `guess_it(fallback=exe)` (native answer `''`) whose clause is `pass` -/
+  exeGuessSwallows : List Exc
+  /-- `guess_it`: the fallbacks that are raised (`isinstance(fallback, …)`) instead of returned -/
+  guessReraises : List Exc
 
 /-! ## text-mode reading -/
 
@@ -158,10 +198,6 @@ structure World where
   users : Nat → Option Bytes := fun _ => none
   /-- `_psposix.get_terminal_map()`: device number → path of a `/dev/tty*`, `/dev/pts/*` -/
   ttys : Nat → Option Bytes := fun _ => none
-
-/-- the exceptions a caller can see -/
-inductive Exc | noSuchProcess | zombieProcess | accessDenied | fileNotFound
-  deriving DecidableEq, Repr
 
 /-- what is raised inside a `@wrap_exceptions` body -/
 inductive RawErr
@@ -310,7 +346,9 @@ def isFile (fs : Bytes → FsEnt) (p : Bytes) : Bool :=
 def xOk (fs : Bytes → FsEnt) (p : Bytes) : Bool :=
   match fs p with | .file x => x | _ => false
 
-/-- `guess_it(fallback)`; an `AccessDenied` fallback is raised, any other returned -/
+/-- `guess_it(fallback)`; an `AccessDenied` fallback is raised, a string returned. (An exception
+    object that `isinstance` does not select would be RETURNED as a value; that needs
+    `exeGuessOn ⊈ guessReraises`, which `cfg_good` excludes: the model raises it in that case too.) -/
 def guessIt (cfg : Cfg) (w : World) (fallback : Res Bytes) : Res Bytes :=
   match cmdline cfg w with
   | .error e => .error e
@@ -331,13 +369,15 @@ def exe (cfg : Cfg) (w : World) (st : St) : St × Res Bytes :=
   | some e => (st, .ok e)
   | none =>
     match procExe cfg w with
-    | .error .accessDenied => (st, guessIt cfg w (.error .accessDenied))
-    | .error e => (st, .error e)
+    | .error e =>
+      if e ∈ cfg.exeGuessOn then (st, guessIt cfg w (.error e))     -- `except …: return guess_it(fallback=err)`
+      else (st, .error e)
     | .ok e =>
       if e.isEmpty then
         match guessIt cfg w (.ok e) with
-        | .error .accessDenied => (⟨some e⟩, .ok e)
-        | .error x => (st, .error x)
+        | .error x =>
+          if x ∈ cfg.exeGuessSwallows then (⟨some e⟩, .ok e)        -- `except …: pass`, then `self._exe = exe`
+          else (st, .error x)
         | .ok g => (⟨some g⟩, .ok g)
       else (⟨some e⟩, .ok e)
 
@@ -366,9 +406,7 @@ def name (cfg : Cfg) (w : World) : Res Bytes :=
   | .ok n =>
     if cfg.nameMinLen ≤ nameLen cfg n then
       match cmdline cfg w with
-      | .error .accessDenied => .ok n
-      | .error .zombieProcess => .ok n
-      | .error e => .error e
+      | .error e => if e ∈ cfg.nameSwallows then .ok n else .error e   -- first matching `except` clause
       | .ok [] => .ok n
       | .ok (a0 :: _) =>
         let ext := basename a0
@@ -449,9 +487,7 @@ def nameIn (cfg : Cfg) (b : Block) (w : World) : Res Bytes :=
   | .ok n =>
     if cfg.nameMinLen ≤ nameLen cfg n then
       match cmdline cfg w with
-      | .error .accessDenied => .ok n
-      | .error .zombieProcess => .ok n
-      | .error e => .error e
+      | .error e => if e ∈ cfg.nameSwallows then .ok n else .error e   -- first matching `except` clause
       | .ok [] => .ok n
       | .ok (a0 :: _) =>
         let ext := basename a0
